@@ -65,6 +65,7 @@ structure Coro where
   outcome : Option Outcome := none     -- what the body produced
   deliveredTo : List Nat := []         -- futures the result was stored into
   saw : List (Nat × Outcome) := []     -- (future, outcome) of every completed `co_await`, newest first
+  notifiedAtFree : Option Bool := none -- set when the frame is destroyed: was the bound party already notified (future resolved)?
   deriving Repr, Inhabited
 
 structure Fut where
@@ -72,9 +73,12 @@ structure Fut where
   out : Option Outcome := none         -- `_state`/value
   ready : Bool := false                -- `_awaiter == &disabled`
   waiters : List Nat := []             -- the awaiter chain (coroutines)
+  cb : Bool := false                   -- a completion callback (non-coroutine awaiter) sits on the chain
   -- ghost
   owner : Option Nat := none           -- coroutine that created it
   setBy : List (Option Nat) := []      -- who stored a value: `some c` coroutine, `none` the driver
+  isOp : Bool := false                 -- result future of an "operation" object whose last owner is the coroutine's frame
+  cbCalls : Nat := 0                   -- how often the completion callback was called
   deriving Repr, Inhabited
 
 structure State where
@@ -88,7 +92,7 @@ inductive Op where
   | create (c : Nat)
   | dropU (c : Nat)
   | detach (c : Nat)
-  | start (c : Nat)
+  | start (c : Nat) (op : Bool := false)   -- `op`: bound to the result future of an operation object owned by the frame
   | startP (c k : Nat)
   | setF (k : Nat) (o : Outcome)
   | dropP (k : Nat)
@@ -123,8 +127,9 @@ def startCoro (s : State) (c : Nat) (b : Option Nat) : State :=
   setCo s c { s.co c with st := St.scheduled, bound := b, startsOk := (s.co c).startsOk + 1 }
 
 /-- a `future<T>` constructed with a claimed promise (`start()`) or as `co_awaiter` (chain preset to the caller) -/
-def newFut (s : State) (owner : Option Nat) (waiters : List Nat) : State :=
-  { setFut s s.nextFut { claimed := true, owner := owner, waiters := waiters } with nextFut := s.nextFut + 1 }
+def newFut (s : State) (owner : Option Nat) (waiters : List Nat) (op : Bool := false) : State :=
+  { setFut s s.nextFut { claimed := true, owner := owner, waiters := waiters, cb := op, isOp := op } with
+    nextFut := s.nextFut + 1 }
 
 def wakeOne (x : Coro) (n : Nat) : Coro :=
   { x with st := (match x.st with
@@ -132,27 +137,41 @@ def wakeOne (x : Coro) (n : Nat) : Coro :=
                   | o => o),
            wakes := x.wakes + n }
 
-/-- `future::resolve()`: exchange the chain for `disabled`, walk it, every awaiter's handle becomes ready -/
+/-- `future::resolve()`: exchange the chain for `disabled`, walk it, every awaiter's handle becomes ready,
+a completion callback on the chain is called (inline, by the resolving thread) -/
 def resolve (s : State) (f : Nat) : State :=
   { s with co := fun c => wakeOne (s.co c) ((s.fut f).waiters.count c),
-           fut := upd s.fut f { s.fut f with ready := true, waiters := [] } }
+           fut := upd s.fut f { s.fut f with
+             ready := true, waiters := [], cb := false,
+             cbCalls := (s.fut f).cbCalls + (if (s.fut f).cb then 1 else 0) } }
 
 /-- the result is stored into the bound future, then `final_awaiter` resolves it -/
 def deliver (s : State) (c f : Nat) (o : Outcome) : State :=
   resolve (setFut s f { s.fut f with out := some o, setBy := some c :: (s.fut f).setBy }) f
 
-/-- locals destroyed, frame destroyed (`me.destroy()` in `final_awaiter`) -/
-def retire (s : State) (c : Nat) (o : Outcome) (to : List Nat) : State :=
+/-- locals destroyed, frame destroyed (`me.destroy()` in `final_awaiter`); `rdy` records whether the bound party had
+been notified at that moment (the arguments of the frame may be the last owner of the bound future) -/
+def retire (s : State) (c : Nat) (o : Outcome) (to : List Nat) (rdy : Bool) : State :=
   setCo s c { s.co c with st := St.done, outcome := some o, localDtors := (s.co c).localDtors + 1,
-                          deliveredTo := to ++ (s.co c).deliveredTo,
+                          deliveredTo := to ++ (s.co c).deliveredTo, notifiedAtFree := some rdy,
                           frameFrees := (s.co c).frameFrees + 1, argDtors := (s.co c).argDtors + 1 }
 
 /-- `co_return` / `unhandled_exception` then `final_awaiter`: store the result into the bound future (if any),
-destroy locals, resolve the future, destroy the frame -/
+destroy locals, resolve the future, *then* destroy the frame (`final_awaiter::await_suspend`: `f->resolve()` precedes
+`me.destroy()`) -/
 def finish (s : State) (c : Nat) (o : Outcome) : State :=
   match (s.co c).bound with
-  | none => retire s c o []
-  | some f => retire (deliver s c f o) c o [f]
+  | none => retire s c o [] true
+  | some f => retire (deliver s c f o) c o [f] ((deliver s c f o).fut f).ready
+
+/-- the seeded variant "release the frame first": the frame dies before `resolve()`; when the frame's arguments are the last
+owner of the bound future (`isOp`), the future dies pending with them and its callback is never called -/
+def finishDestroyFirst (s : State) (c : Nat) (o : Outcome) : State :=
+  match (s.co c).bound with
+  | none => retire s c o [] true
+  | some f =>
+      if (s.fut f).isOp then retire s c o [f] (s.fut f).ready
+      else deliver (retire s c o [f] (s.fut f).ready) c f o
 
 /-- `await_resume` on a ready future -/
 def consume (s : State) (c f : Nat) (caught : Bool) : State :=
@@ -227,8 +246,8 @@ def step (s : State) (op : Op) : State × Res :=
   | Op.create c => if (s.co c).st = St.absent then (create s c, Res.unit) else (s, Res.bad)
   | Op.dropU c => if (s.co c).st = St.unstarted then (dropU s c, Res.unit) else (s, Res.bad)
   | Op.detach c => if (s.co c).st = St.unstarted then (startCoro s c none, Res.unit) else (s, Res.bad)
-  | Op.start c =>
-      if (s.co c).st = St.unstarted then (startCoro (newFut s none []) c (some s.nextFut), Res.fut s.nextFut)
+  | Op.start c op =>
+      if (s.co c).st = St.unstarted then (startCoro (newFut s none [] op) c (some s.nextFut), Res.fut s.nextFut)
       else (s, Res.bad)
   | Op.startP c k =>
       if (s.co c).st = St.unstarted ∧ k < s.nExt then
